@@ -1,5 +1,6 @@
 import PGM.Generated.RegionGraphG
 import PGM.Proofs.RegionGraphGen
+import PGM.Proofs.RegionGraphGen2
 import PGM.Properties.C16
 import PGM.Properties.C17
 /-!
@@ -27,8 +28,18 @@ Where the source does more than the model, the equality is stated under the hypo
 * `self.messages[k] = …` in `build_graph` are dictionary stores, `RG.initMessages` appends: equal when no edge is listed
   twice or in both directions (`gen_initMessages`; `initMessages_needs_nodup` shows the difference otherwise).
 
-NOT covered: the rest of `build_graph` (closure, cover edges, `min_edges`, counting numbers, N/D/B) — `regions`, `children`,
-`parents`, `counting_numbers`, `N`, `D`, `B` are inputs here (the fields of the `RG.Graph` record).
+`build_graph` (second part of this file): `gen_closeStep` / `gen_closureWhile` / `gen_closure` / `gen_build_regions` (the regenerated
+intersection closure is `RG.closure`), `gen_buildGraphCM` / `gen_buildGraphCS` (convex: every field the oracle reads is `RG.buildOn`'s),
+`gen_buildGraphNM_skeleton` / `gen_buildGraphNS_skeleton` (non-convex: children, parents, descendants, ancestors, messages, message
+order), for every duplicate-free region list; `gen_initMessages_buildOn` discharges the fresh-key hypothesis of `gen_initMessages`
+from `BuiltOK`.  Certificates with the regenerated construction feeding the regenerated oracle: `gen_hps_certificate_built`,
+`gen_hps_certificate_source` (from the clique list on), `gen_counting_convex`, `gen_gbp_tables_normalised_built`,
+`gen_gbp_tables_valid_built` (generalised propagation on the regenerated N / D / B themselves, `genGraphN`).
+
+OPEN: the regenerated Möbius counting numbers (`RGG.buildGraphN*_get_counting_number`, memoised recursion) and the regenerated
+N / D / B dictionaries are NOT proved equal to `RG.moebius` / `beliefSetMin` / `msgSetsMin` / `beliefSetSat` / `msgSetsSat`; the C16
+statements above hold for the regenerated N / D / B as they are (they are ∀-graph statements), the counting numbers of the
+non-convex graph are read by none of the translated oracles.
 -/
 namespace PGM.C17G
 open PGM PGM.JT PGM.RG PGM.RGGen
@@ -465,5 +476,274 @@ theorem initMessages_needs_nodup :
     (RGG.initMessages (α := ExtQ) [("A", 2)] [["A", "B"]] [(["A", "B"], [["A"], ["A"]])]).1.length = 2 ∧
     (RG.initMessages (α := ExtQ) [("A", 2)] [(["A", "B"], ["A"]), (["A", "B"], ["A"])]).length = 4 := by
   decide
+
+
+/-! ## `build_graph` from `G = nx.DiGraph()` on: the regenerated graph is the model's `RG.buildOn` -/
+
+/-- convex, minimal: children / parents / descendants / ancestors / counting numbers are the model's, and the last block is
+`RGG.initMessages` (identified with the model in `gen_initMessages`) -/
+theorem gen_buildGraphCM (dom : Dom) (regions : List Region) (hnd : regions.Nodup) :
+    RGG.buildGraphCM (α := α) dom regions
+      = ((RG.buildOn regions true true).children, (RG.buildOn regions true true).parents, (RG.buildOn regions true true).descendants,
+         (RG.buildOn regions true true).ancestors, (RG.buildOn regions true true).counting,
+         RGG.initMessages dom regions (RG.buildOn regions true true).children) := by
+  unfold RGG.buildGraphCM
+  simp only [addNodes_empty, coverFold_eq, RGG.nxNeighbors, RGG.nxRevNeighbors, RGG.nxTCNeighbors, RGG.nxTCRevNeighbors, RGG.nxEdges,
+    edgesOf_coverEdges regions hnd, look_eq, minFold_eq, RGG.DiGraph.addEdges, List.nil_append]
+  rfl
+
+
+/-- convex, saturated (`minimal=False`) -/
+theorem gen_buildGraphCS (dom : Dom) (regions : List Region) (hnd : regions.Nodup) :
+    RGG.buildGraphCS (α := α) dom regions
+      = ((RG.buildOn regions true false).children, (RG.buildOn regions true false).parents, (RG.buildOn regions true false).descendants,
+         (RG.buildOn regions true false).ancestors, (RG.buildOn regions true false).counting,
+         RGG.initMessages dom regions (RG.buildOn regions true false).children) := by
+  unfold RGG.buildGraphCS
+  simp only [addNodes_empty, coverFold_eq, RGG.nxNeighbors, RGG.nxRevNeighbors, RGG.nxTCNeighbors, RGG.nxTCRevNeighbors, RGG.nxEdges,
+    edgesOf_coverEdges regions hnd, look_eq, List.nil_append]
+  rfl
+
+/-- non-convex, minimal: the graph skeleton (the counting numbers and N / D / B are components 5-8) -/
+theorem gen_buildGraphNM_skeleton (dom : Dom) (regions : List Region) (fuel : Nat) (hnd : regions.Nodup) :
+    let out := RGG.buildGraphNM (α := α) dom regions fuel
+    let g := RG.buildOn regions false true
+    out.1 = g.children ∧ out.2.1 = g.parents ∧ out.2.2.1 = g.descendants ∧ out.2.2.2.1 = g.ancestors ∧
+      out.2.2.2.2.2.2.2.2 = RGG.initMessages dom regions g.children := by
+  intro out g
+  show (RGG.buildGraphNM (α := α) dom regions fuel).1 = _ ∧ (RGG.buildGraphNM (α := α) dom regions fuel).2.1 = _ ∧
+    (RGG.buildGraphNM (α := α) dom regions fuel).2.2.1 = _ ∧ (RGG.buildGraphNM (α := α) dom regions fuel).2.2.2.1 = _ ∧
+    (RGG.buildGraphNM (α := α) dom regions fuel).2.2.2.2.2.2.2.2 = _
+  unfold RGG.buildGraphNM
+  simp only [addNodes_empty, coverFold_eq, RGG.nxNeighbors, RGG.nxRevNeighbors, RGG.nxTCNeighbors, RGG.nxTCRevNeighbors, RGG.nxEdges,
+    edgesOf_coverEdges regions hnd, look_eq, minFold_eq, RGG.DiGraph.addEdges, List.nil_append]
+  exact ⟨rfl, rfl, rfl, rfl, rfl⟩
+
+/-- non-convex, saturated -/
+theorem gen_buildGraphNS_skeleton (dom : Dom) (regions : List Region) (fuel : Nat) (hnd : regions.Nodup) :
+    let out := RGG.buildGraphNS (α := α) dom regions fuel
+    let g := RG.buildOn regions false false
+    out.1 = g.children ∧ out.2.1 = g.parents ∧ out.2.2.1 = g.descendants ∧ out.2.2.2.1 = g.ancestors ∧
+      out.2.2.2.2.2.2.2.2 = RGG.initMessages dom regions g.children := by
+  intro out g
+  show (RGG.buildGraphNS (α := α) dom regions fuel).1 = _ ∧ (RGG.buildGraphNS (α := α) dom regions fuel).2.1 = _ ∧
+    (RGG.buildGraphNS (α := α) dom regions fuel).2.2.1 = _ ∧ (RGG.buildGraphNS (α := α) dom regions fuel).2.2.2.1 = _ ∧
+    (RGG.buildGraphNS (α := α) dom regions fuel).2.2.2.2.2.2.2.2 = _
+  unfold RGG.buildGraphNS
+  simp only [addNodes_empty, coverFold_eq, RGG.nxNeighbors, RGG.nxRevNeighbors, RGG.nxTCNeighbors, RGG.nxTCRevNeighbors, RGG.nxEdges,
+    edgesOf_coverEdges regions hnd, look_eq, List.nil_append]
+  exact ⟨rfl, rfl, rfl, rfl, rfl⟩
+
+
+/-! ## the certificates with the REGENERATED graph construction feeding the regenerated oracles -/
+
+section built
+open PGM.Convex PGM.Oracle
+
+/-- the regenerated `build_graph` with `convex=True` (`minimal` selects the variant) -/
+noncomputable def genBuildC (dom : Dom) (regions : List Region) (minimal : Bool) :=
+  if minimal then RGG.buildGraphCM (α := ℝ) dom regions else RGG.buildGraphCS (α := ℝ) dom regions
+
+/-- `self.messages` / `self.message_order` of the regenerated `build_graph` are the model's `initMessages` / `messageOrder`
+on every `buildOn` graph (regions without repetition) -/
+theorem gen_initMessages_buildOn (dom : Dom) (regions : List Region) (convex minimal : Bool) (hnd : regions.Nodup) :
+    RGG.initMessages (α := α) dom regions (RG.buildOn regions convex minimal).children
+      = (RG.initMessages dom (RG.buildOn regions convex minimal).messageOrder, (RG.buildOn regions convex minimal).messageOrder) := by
+  have hok := buildOn_ok regions convex minimal hnd
+  exact gen_initMessages dom regions _ (order_keys_nodup regions _ hnd hok.children_nodup
+    (fun r hr c hc => (hok.children_sub r hr c hc).1) hok.antisymm)
+
+theorem gen_buildGraphC (dom : Dom) (regions : List Region) (minimal : Bool) (hnd : regions.Nodup) :
+    genBuildC dom regions minimal
+      = ((RG.buildOn regions true minimal).children, (RG.buildOn regions true minimal).parents, (RG.buildOn regions true minimal).descendants,
+         (RG.buildOn regions true minimal).ancestors, (RG.buildOn regions true minimal).counting,
+         RG.initMessages dom (RG.buildOn regions true minimal).messageOrder, (RG.buildOn regions true minimal).messageOrder) := by
+  unfold genBuildC
+  cases minimal
+  · simp only [Bool.false_eq_true, if_false]
+    rw [gen_buildGraphCS dom regions hnd, gen_initMessages_buildOn dom regions true false hnd]
+  · simp only [if_true]
+    rw [gen_buildGraphCM dom regions hnd, gen_initMessages_buildOn dom regions true true hnd]
+
+/-- the regenerated counting numbers of the convex graph are 1 on every region -/
+theorem gen_counting_convex (dom : Dom) (regions : List Region) (minimal : Bool) (hnd : regions.Nodup) (r : Region) (hr : r ∈ regions) :
+    RGG.intGet (genBuildC dom regions minimal).2.2.2.2.1 r = 1 := by
+  rw [gen_buildGraphC dom regions minimal hnd]
+  show (List.lookup r (regions.map (fun r => (r, (1 : Int))))).getD 0 = 1
+  rw [PGM.Convex.lookup_map_self regions (fun _ => (1 : Int)) r hr]
+  rfl
+
+/-- **the certificate for the source as a whole** (from `G = nx.DiGraph()` on): the regenerated `build_graph` (convex) run on the
+region list, its `children`, `parents`, `self.messages` handed to the regenerated `hazan_peng_shashua` with unit counting numbers
+(`gen_counting_convex`), satisfy the conclusions of `hps_certificate_checked` — beliefs in Lagrangian form, `Shape`, `MsgsDown`,
+weak duality, optimality at consistency.  Hypotheses on the inputs only. -/
+theorem gen_hps_certificate_built (dom : Dom) (regions : List Region) (minimal : Bool) (potentials : CliqueVec ℝ)
+    (T rho conv : ℝ) (iters : Nat) (hT : 0 < T) (hit : 0 < iters)
+    (hd : dom.WF) (hsz : ∀ p ∈ dom, 0 < p.2) (hnd : regions.Nodup) (hreg : ∀ r ∈ regions, RegOK dom r)
+    (hp : ∀ r ∈ regions, (potentials.get r).WF ∧ (potentials.get r).dom = dom.project r) :
+    let b := genBuildC dom regions minimal
+    let out := RGG.hazanPengShashua dom regions (RGG.sortByLen regions) b.1 b.2.1 (fun _ => (1 : ℝ)) T rho conv iters potentials b.2.2.2.2.2.1
+    let g := RG.buildOn regions true minimal
+    let pot := potOf dom g potentials
+    out.1.map (fun p => (p.1, p.2.datavector))
+        = (lagrangianBeliefs g pot T out.2).map (fun p => (p.1, p.2.datavector)) ∧
+    Shape dom g pot out.2 ∧
+    MsgsDown dom g out.2 ∧
+    (∀ q, LocallyConsistent dom g T q → primalValue g pot T q ≤ dualValue g pot T out.2) ∧
+    (LocallyConsistent dom g T (lagrangianBeliefs g pot T out.2) →
+      primalValue g pot T (lagrangianBeliefs g pot T out.2) = dualValue g pot T out.2 ∧
+      ∀ q, LocallyConsistent dom g T q →
+        primalValue g pot T q ≤ primalValue g pot T (lagrangianBeliefs g pot T out.2)) := by
+  intro b out g pot
+  have hb := gen_buildGraphC dom regions minimal hnd
+  have hout : out = genHps dom g potentials T rho conv iters (initMessages dom g.messageOrder) := by
+    show RGG.hazanPengShashua dom regions (RGG.sortByLen regions) (genBuildC dom regions minimal).1 (genBuildC dom regions minimal).2.1
+      (fun _ => (1 : ℝ)) T rho conv iters potentials (genBuildC dom regions minimal).2.2.2.2.2.1 = _
+    rw [hb]
+    rfl
+  rw [hout]
+  exact gen_hps_certificate_checked dom g potentials T rho conv iters hT hit
+    (C17.buildOn_passes_check dom regions true minimal hd hsz hnd hreg) (fun r hr _ => hp r hr)
+
+/-! ### generalised propagation on the regenerated N / D / B -/
+
+/-- the graph record whose every field the oracles read comes from the regenerated `build_graph` (non-convex): adjacency, counting
+numbers, N, D, B, message order; `children0` / `parents0` (model-only book-keeping) are the model's -/
+noncomputable def genGraphN (dom : Dom) (regions : List Region) (minimal : Bool) (fuel : Nat) : RG.Graph :=
+  let b := if minimal then RGG.buildGraphNM (α := ℝ) dom regions fuel else RGG.buildGraphNS (α := ℝ) dom regions fuel
+  { regions := regions, cliques := RGG.sortByLen regions, children := b.1, parents := b.2.1, descendants := b.2.2.1, ancestors := b.2.2.2.1,
+    children0 := (RG.buildOn regions false minimal).children0, parents0 := (RG.buildOn regions false minimal).parents0,
+    counting := b.2.2.2.2.1, N := b.2.2.2.2.2.1, D := b.2.2.2.2.2.2.1, B := b.2.2.2.2.2.2.2.1, messageOrder := b.2.2.2.2.2.2.2.2.2 }
+
+theorem genGraphN_order (dom : Dom) (regions : List Region) (minimal : Bool) (fuel : Nat) (hnd : regions.Nodup) :
+    (genGraphN dom regions minimal fuel).messageOrder = (RG.buildOn regions false minimal).messageOrder ∧
+    (genGraphN dom regions minimal fuel).children = (RG.buildOn regions false minimal).children ∧
+    (genGraphN dom regions minimal fuel).parents = (RG.buildOn regions false minimal).parents := by
+  unfold genGraphN
+  cases minimal
+  · obtain ⟨h1, h2, _, _, h5⟩ := gen_buildGraphNS_skeleton (α := ℝ) dom regions fuel hnd
+    simp only [Bool.false_eq_true, if_false]
+    rw [h1, h2, h5, gen_initMessages_buildOn dom regions false false hnd]
+    exact ⟨rfl, rfl, rfl⟩
+  · obtain ⟨h1, h2, _, _, h5⟩ := gen_buildGraphNM_skeleton (α := ℝ) dom regions fuel hnd
+    simp only [if_true]
+    rw [h1, h2, h5, gen_initMessages_buildOn dom regions false true hnd]
+    exact ⟨rfl, rfl, rfl⟩
+
+theorem genGraphN_src (dom : Dom) (regions : List Region) (minimal : Bool) (fuel : Nat) (hnd : regions.Nodup) :
+    ∀ e ∈ (genGraphN dom regions minimal fuel).messageOrder, e.1 ∈ (genGraphN dom regions minimal fuel).regions := by
+  rw [(genGraphN_order dom regions minimal fuel hnd).1]
+  intro e he
+  exact ((buildOn_ok regions false minimal hnd).order_sound e he).1
+
+/-- **C16 for the source as a whole**: the regenerated `generalized_belief_propagation` run on the regenerated graph (its own N, D, B,
+message order, initial messages) returns normalised tables … -/
+theorem gen_gbp_tables_normalised_built (dom : Dom) (regions : List Region) (minimal : Bool) (fuel : Nat) (pots : CliqueVec ℝ) (T : ℝ)
+    (iters : Nat) (msgs : Msgs ℝ) (hnd : regions.Nodup) (p : Clique × Factor ℝ)
+    (hp : p ∈ (genGbp dom (genGraphN dom regions minimal fuel) pots T iters msgs).1) :
+    ∃ b : Factor ℝ, p.2 = RG.normalise T b :=
+  gen_gbp_tables_normalised dom _ pots T iters msgs (genGraphN_src dom regions minimal fuel hnd) p hp
+
+/-- … that are valid (positive, summing to `T`) from the initial messages, under hypotheses on the inputs only -/
+theorem gen_gbp_tables_valid_built (dom : Dom) (regions : List Region) (minimal : Bool) (fuel : Nat) (pots : CliqueVec ℝ) (T : ℝ)
+    (iters : Nat) (hT : 0 < T) (hdom : PosDom dom) (hnd : regions.Nodup) (hreg : ∀ r ∈ regions, ∀ a ∈ r, a ∈ dom.attrs)
+    (hcl : ∀ r ∈ regions, PosDom (pots.get r).dom ∧ (pots.get r).vals.data.size ≠ 0)
+    (p : Clique × Factor ℝ)
+    (hp : p ∈ (genGbp dom (genGraphN dom regions minimal fuel) pots T iters
+      (RG.initMessages dom (genGraphN dom regions minimal fuel).messageOrder)).1) : ValidTable T p.2 := by
+  refine gen_gbp_tables_valid_init dom _ pots T iters hT hdom (genGraphN_src dom regions minimal fuel hnd) ?_ ?_ p hp
+  · rw [(genGraphN_order dom regions minimal fuel hnd).1]
+    intro e he
+    have hs := (buildOn_ok regions false minimal hnd).order_sound e he
+    have hc := (buildOn_ok regions false minimal hnd).children_sub e.1 hs.1 e.2 hs.2
+    exact ⟨hreg e.1 hs.1, hreg e.2 hc.1⟩
+  · intro r hr
+    exact hcl r ((mem_sortByLen regions r).mp hr)
+
+end built
+
+
+/-! ## lines 120-127 of `build_graph`: the intersection closure -/
+
+/-- one pass of `for r1, r2 in itertools.combinations(regions, 2)` as regenerated is the model's `closeStep` -/
+theorem gen_closeStep (rs : List Region) :
+    (GM.combos2 rs).foldl (fun (regions : List Region) (r1r2 : Edge) =>
+      if ((decide ((List.length (RG.sortedInter r1r2.1 r1r2.2)) > 0)) && (!(List.contains regions (RG.sortedInter r1r2.1 r1r2.2))))
+      then RGG.setAdd regions (RG.sortedInter r1r2.1 r1r2.2) else regions) rs = RG.closeStep rs := by
+  unfold RG.closeStep
+  apply List.foldl_ext
+  intro acc p _
+  unfold RGG.setAdd
+  by_cases h : RG.sortedInter p.1 p.2 ∈ acc
+  · simp [h]
+  · simp [h]
+
+/-- the `while` loop: after the first pass, `n` further iterations of the source are `n+1` rounds of the model's `closeLoop`
+(the source tests before a pass, the model after it) -/
+theorem gen_closureWhile (n : Nat) (R : List Region) :
+    (RGG.closureWhile n (RG.closeStep R, R.length)).1 = RG.closeLoop (n + 1) R := by
+  induction n generalizing R with
+  | zero =>
+    show RG.closeStep R = (if (RG.closeStep R).length > R.length then RG.closeLoop 0 (RG.closeStep R) else RG.closeStep R)
+    split <;> rfl
+  | succ n ih =>
+    simp only [RGG.closureWhile, gen_closeStep]
+    rw [RG.closeLoop]
+    by_cases h : (RG.closeStep R).length > R.length
+    · simp only [h, decide_true, if_true]
+      exact ih (RG.closeStep R)
+    · simp only [h, decide_false, if_false, Bool.false_eq_true]
+
+/-- **the regenerated closure is the model's**, for every bound on the number of passes; with the model's bound it is `RG.closure` -/
+theorem gen_closure (cliques : List Region) (n : Nat) :
+    RGG.closure cliques (n + 1) = RG.closeLoop (n + 1) (RG.dedup cliques) := by
+  unfold RGG.closure RGG.pySet
+  simp only [RGG.closureWhile, gen_closeStep]
+  by_cases h : (RG.dedup cliques).length > 0
+  · simp only [h, decide_true, if_true]
+    exact gen_closureWhile n (RG.dedup cliques)
+  · have h0 : RG.dedup cliques = [] := by
+      cases hd : RG.dedup cliques with
+      | nil => rfl
+      | cons x xs => rw [hd] at h; simp at h
+    simp only [h, decide_false, if_false, Bool.false_eq_true]
+    rw [h0]
+    rfl
+
+theorem gen_closure_model (cliques : List Region) :
+    RGG.closure cliques ((RG.dedup cliques).length + 1) = RG.closure cliques := by
+  rw [gen_closure]
+  rfl
+
+/-- `__init__` + the closure: the region list the model's `RG.build` hands to `buildOn` -/
+theorem gen_build_regions (cliques : List Region) (convex : Bool) :
+    RGG.closure (RGG.initCliques cliques convex) ((RG.dedup (RGG.initCliques cliques convex)).length + 1)
+      = RG.closure (RG.initCliques cliques convex) := by
+  rw [gen_closure_model, gen_initCliques]
+
+
+/-- **the certificate from the clique list on**: regenerated `__init__` filter (convex: the identity), regenerated closure (with the
+model's bound on the passes), regenerated `build_graph`, regenerated `hazan_peng_shashua` -/
+theorem gen_hps_certificate_source (dom : Dom) (cliques regions : List Region) (minimal : Bool) (potentials : CliqueVec ℝ)
+    (T rho conv : ℝ) (iters : Nat) (hT : 0 < T) (hit : 0 < iters)
+    (hd : dom.WF) (hsz : ∀ p ∈ dom, 0 < p.2) (hcl : ∀ c ∈ cliques, PGM.Convex.RegOK dom c)
+    (hregs : regions = RGG.closure (RGG.initCliques cliques true) ((RG.dedup (RGG.initCliques cliques true)).length + 1))
+    (hp : ∀ r ∈ regions, (potentials.get r).WF ∧ (potentials.get r).dom = dom.project r) :
+    let b := genBuildC dom regions minimal
+    let out := RGG.hazanPengShashua dom regions (RGG.sortByLen regions) b.1 b.2.1 (fun _ => (1 : ℝ)) T rho conv iters potentials b.2.2.2.2.2.1
+    let g := RG.build cliques true minimal
+    let pot := potOf dom g potentials
+    out.1.map (fun p => (p.1, p.2.datavector))
+        = (lagrangianBeliefs g pot T out.2).map (fun p => (p.1, p.2.datavector)) ∧
+    PGM.Convex.Shape dom g pot out.2 ∧
+    (∀ q, PGM.Convex.LocallyConsistent dom g T q → primalValue g pot T q ≤ dualValue g pot T out.2) ∧
+    (PGM.Convex.LocallyConsistent dom g T (lagrangianBeliefs g pot T out.2) →
+      primalValue g pot T (lagrangianBeliefs g pot T out.2) = dualValue g pot T out.2) := by
+  have e : regions = RG.closure (RG.initCliques cliques true) := hregs.trans (gen_build_regions cliques true)
+  have hok := PGM.Convex.closure_ok dom cliques hcl
+  have e' : regions = RG.closure cliques := e
+  subst e'
+  have h := gen_hps_certificate_built dom (RG.closure cliques) minimal potentials T rho conv iters hT hit hd hsz hok.1 hok.2 hp
+  exact ⟨h.1, h.2.1, h.2.2.2.1, fun hc => (h.2.2.2.2 hc).1⟩
 
 end PGM.C17G
